@@ -14,7 +14,7 @@ use std::str::FromStr;
 
 pub struct C14;
 
-const SEP: char = '\u{1f}';
+pub const SEP: char = '\u{1f}';
 
 /// what R's lexer says about the source text, keyed by item identity
 #[derive(Default)]
@@ -29,7 +29,7 @@ pub struct Expected {
     pub root_span: Span,
 }
 
-fn join(base: &str, name: &str) -> String {
+pub fn join(base: &str, name: &str) -> String {
     if base.is_empty() {
         format!("{name:?}")
     } else {
